@@ -4,7 +4,8 @@
 EXTENDS KillAction, Json, IOUtils
 
 VARIABLE l
-tvars == <<kvars, l>>
+VARIABLE aux   \* ruleset-level pause bookkeeping around the kill action (see AuxStep)
+tvars == <<kvars, l, aux>>
 
 TraceLog == ndJsonDeserialize(IOEnv.TRACE)
 N == Len(TraceLog)
@@ -15,7 +16,7 @@ Consume == l' = l + 1
 SeqToSet(s) == {s[i] : i \in DOMAIN s}
 WorldOf(ws) == SeqToSet(ws)
 CfgOf(c) == [plugin |-> c.plugin, pats |-> SeqToSet(c.pats), recursive |-> c.recursive, dry |-> c.dry,
-             always |-> c.always, kernel |-> c.kernel, reap |-> c.reap,
+             always |-> c.always, kernel |-> c.kernel, reap |-> c.reap, timeout |-> c.timeout,
              hooks |-> [i \in DOMAIN c.hooks |-> [id |-> c.hooks[i].id, pats |-> SeqToSet(c.hooks[i].pats)]]]
 XsOf(xs) == [p \in {xs[i].path : i \in DOMAIN xs} |->
                LET x == xs[CHOOSE i \in DOMAIN xs : xs[i].path = p] IN
@@ -23,11 +24,36 @@ XsOf(xs) == [p \in {xs[i].path : i \in DOMAIN xs} |->
                 kill |-> [trusted |-> x.killT, user |-> x.killU],
                 uuid |-> [trusted |-> 0, user |-> 0]]]
 
-TraceInit == KInit /\ l = 1 /\ TLCSet(1, 0)
+\* ---- post-action delay around a REAL kill plugin (C05): the ruleset r0 runs [kill plugin, scripted action "next"].
+\* After a chain ends with STOP at time t the actions do not run before t + d, d = the stopping action's own
+\* post_action_delay if it has one, else the ruleset's; a kill plugin that CONTINUEs (always_continue, failure)
+\* does not set any pause; a paused or not-fired ruleset runs no action; a fired unpaused one (or one with a
+\* chain suspended by ASYNC_PAUSED) does.  aux is updated from the event consumed in the step, whatever action.
+AuxInit == [pause |-> 0, can |-> FALSE, must |-> FALSE, wasAsync |-> FALSE, ran |-> FALSE, kret |-> "", rsDelay |-> 0, plDelay |-> -1]
+AuxGuard(a, e) ==
+  CASE e.e = "KRun" -> a.can /\ (a.must \/ a.wasAsync)
+    [] e.e = "KStat" -> (a.can /\ (a.must \/ a.wasAsync)) => a.ran
+    [] e.e = "Run" /\ e.role = "act" -> a.ran /\ a.kret = "CONTINUE"
+    [] OTHER -> TRUE
+AuxUpdate(a, e) ==
+  CASE e.e = "KReset" -> [AuxInit EXCEPT !.rsDelay = e.cfg.rsDelay, !.plDelay = e.cfg.plDelay]
+    [] e.e = "KEnv" -> [a EXCEPT !.can = e.t >= a.pause, !.must = FALSE, !.ran = FALSE, !.wasAsync = (a.kret = "ASYNC")]
+    [] e.e = "Run" /\ e.role = "det" -> [a EXCEPT !.must = (e.ret = "CONTINUE")]
+    [] e.e = "KRun" -> [a EXCEPT !.ran = TRUE]
+    [] e.e = "KRet" -> [a EXCEPT !.kret = e.ret,
+                                 !.pause = IF e.ret = "STOP" THEN e.t + 1000 * (IF a.plDelay >= 0 THEN a.plDelay ELSE a.rsDelay) ELSE @]
+    [] e.e = "Run" /\ e.role = "act" -> [a EXCEPT !.kret = "", !.pause = IF e.ret = "STOP" THEN e.t + 1000 * a.rsDelay ELSE @]
+    [] OTHER -> a
+AuxStep == IF l' = l THEN aux' = aux ELSE AuxGuard(aux, TraceLog[l]) /\ aux' = AuxUpdate(aux, TraceLog[l])
+
+TraceInit == KInit /\ l = 1 /\ aux = AuxInit /\ TLCSet(1, 0)
 
 TReset == IsEv("KReset") /\ Consume /\ KReset(WorldOf(Ev.world), CfgOf(Ev.cfg), XsOf(Ev.x), Ev.t)
 TEnv == IsEv("KEnv") /\ Consume /\ KEnv(WorldOf(Ev.world), Ev.t)
-TRun == IsEv("KRun") /\ Consume /\ Ev.t = know /\ Ev.hasRs = TRUE /\ KRun(Ev.deadline)
+\* the prekill-hook window is counted from when the action chain fired: a fresh run sees now + prekill_hook_timeout,
+\* a run resumed after ASYNC_PAUSED sees the deadline of the run it continues (even if a detector group fired again)
+TRun == /\ IsEv("KRun") /\ Consume /\ Ev.t = know /\ Ev.hasRs = TRUE /\ KRun(Ev.deadline)
+        /\ Ev.deadline = (IF kret = "ASYNC" THEN kctx.deadline ELSE know + 1000 * kcfg.timeout)
 TRet == IsEv("KRet") /\ Consume /\ Ev.t = know /\ KRet(Ev.ret)
 TStat == IsEv("KStat") /\ Consume /\ Ev.kills = kstat /\ kph = "idle" /\ UNCHANGED kvars
 \* end of an execution; objects torn down afterwards (an outstanding invocation dies with its plugin)
@@ -97,7 +123,7 @@ TraceNext ==
   \/ TReset \/ TEnv \/ TRun \/ TRet \/ TStat \/ TEnd \/ TSkip \/ THookFire \/ THookPoll
   \/ THookDestroy \/ TSReset \/ TDbus \/ TSKmsg \/ TSRet \/ TTeardown \/ TClock \/ TX \/ TProcs \/ TKill \/ TReap \/ TCtl \/ TKmsg \/ TSilent
 
-TraceSpec == TraceInit /\ [][TraceNext]_tvars
+TraceSpec == TraceInit /\ [][TraceNext /\ AuxStep]_tvars
 
 TraceProgress == TLCSet(1, IF TLCGet(1) < l THEN l ELSE TLCGet(1))
 TraceAccepted ==
